@@ -22,6 +22,12 @@ fn main() {
         std::process::exit(2);
     }
     let facet = args[1].clone();
+    if facet == "__c01child" {
+        // worker side of the C01 facet: evaluate the jobs of a file, one outcome line each
+        std::panic::set_hook(Box::new(|_| {}));
+        facets::c01::child_main(&args[2]);
+        return;
+    }
     let mut opts = Opts {
         thorough: false,
         seed: 1,
@@ -64,6 +70,7 @@ fn main() {
         }
     }));
     let rep = match facet.as_str() {
+        "C01" => facets::c01::run(&opts),
         "C03" => facets::c03::run(&opts),
         "C04" => facets::c04::run(&opts),
         "C10" => facets::c10::run(&opts),
